@@ -25,12 +25,43 @@ Print Assumptions C12_drain_no_read_after_end.
 (* for every number of form values, every list of files (declared or sniffed, every placement of failing
    source Reads) and every scenario (parameter error, auth writer absent / ok / failing, asking for the body
    or not, URL error, transport failing after any number of reads or answering after any number of reads or
-   all, response read / no consumer / reader failing): when the call has returned, the pipe's read end is
-   closed, the writer goroutine has returned, the files were closed exactly once, the response body is closed *)
+   all, response of a consumed / unknown / binary type, read or refused by the reader, its body intact or failing
+   early or late, Runtime.Debug on or off): when the call has returned, the writer goroutine has returned, the
+   files were closed exactly once, a response body that was obtained has been closed *)
 Theorem C12_release : forall nvalues files sc,
   released (call all_fixed (compile all_fixed nvalues files) sc) = true.
 Proof. exact release_all_fixed. Qed.
 Print Assumptions C12_release.
+
+(* ... and closed exactly once, on every path: Debug on or off, a response of any type, its body intact or
+   failing, the dump of the response failing or going through *)
+Theorem C12_response_closed_exactly_once : forall nvalues files sc,
+  released_once (call all_fixed (compile all_fixed nvalues files) sc) = true.
+Proof. exact release_once_all_fixed. Qed.
+Print Assumptions C12_response_closed_exactly_once.
+
+(* the repair of F-C12-5 is necessary: with the deferred Close bound to the body the response held when the
+   defer statement was executed (the code before the repair), Debug on and a printable response read without
+   fault, the body handed out by the transport is closed twice: by httputil.DumpResponse, which has copied it,
+   and again by the deferred Close *)
+Theorem C12_response_closed_exactly_once_refuted_without_resp_close_held :
+  let fx := mkfx true true true true false in
+  let sc := mksc false ANone false (TRespond None RespRead) true in
+  let c := call fx (compile fx 0 [mkfp true true [true]]) sc in
+  dump_closes_twice sc = true /\
+  c_result c = ROk /\ c_resp_opened c = 1 /\ c_resp_closes c = 2 /\ released c = true /\ released_once c = false.
+Proof. exact release_once_needs_resp_close_held. Qed.
+Print Assumptions C12_response_closed_exactly_once_refuted_without_resp_close_held.
+
+(* the deferred Close has to be registered before the Debug dump: registered after it, a response body that
+   fails while it is dumped is never closed *)
+Theorem C12_release_refuted_without_resp_close_first :
+  let fx := mkfx true true true false true in
+  let c := call fx (compile fx 0 [mkfp true true [true]])
+                (mksc false ANone false (TRespond None (mkrb CtConsumed false RFLate)) true) in
+  c_result c = RFail /\ c_resp_opened c = 1 /\ c_resp_closes c = 0 /\ released c = false.
+Proof. exact release_needs_resp_close_first. Qed.
+Print Assumptions C12_release_refuted_without_resp_close_first.
 
 (* once the read end is closed the goroutine cannot wait: it returns, whatever is left of its program *)
 Theorem C12_writer_never_blocked_after_close : forall ops sk df pe cl dl,
@@ -38,35 +69,38 @@ Theorem C12_writer_never_blocked_after_close : forall ops sk df pe cl dl,
 Proof. exact run_closed_done. Qed.
 Print Assumptions C12_writer_never_blocked_after_close.
 
-(* the three repairs are each necessary (the witnesses are the defects F-C12-1, F-C12-2, F-C12-4) *)
+(* the three repairs of the upload side are each necessary (the witnesses are the defects F-C12-1, F-C12-2, F-C12-4) *)
 Theorem C12_release_refuted_without_late_close :
-  let fx := mkfx true false true in
-  let c := call fx (compile fx 0 one_file) (mksc false (AFail false) false (TFail 0)) in
+  let fx := mkfx true false true true true in
+  let c := call fx (compile fx 0 one_file) (mksc false (AFail false) false (TFail 0) false) in
   released c = false /\ w_done (c_w c) = false /\ w_file_closes (c_w c) = 0.
 Proof. exact release_needs_late_close. Qed.
 Print Assumptions C12_release_refuted_without_late_close.
 
 Theorem C12_release_refuted_without_defer_first :
-  let fx := mkfx false true true in
-  let c := call fx (compile fx 1 one_file) (mksc false ANone false (TFail 0)) in
+  let fx := mkfx false true true true true in
+  let c := call fx (compile fx 1 one_file) (mksc false ANone false (TFail 0) false) in
   released c = false /\ w_done (c_w c) = true /\ w_file_closes (c_w c) = 0.
 Proof. exact release_needs_defer_first. Qed.
 Print Assumptions C12_release_refuted_without_defer_first.
 
 Theorem C12_release_refuted_without_param_close :
-  let fx := mkfx true true false in
-  released (call fx (compile fx 0 one_file) (mksc true ANone false (TFail 0))) = false.
+  let fx := mkfx true true false true true in
+  released (call fx (compile fx 0 one_file) (mksc true ANone false (TFail 0) false)) = false.
 Proof. exact release_needs_param_close. Qed.
 Print Assumptions C12_release_refuted_without_param_close.
 
 (* ---- faults are surfaced ---- *)
 (* a failing upload source is never reported as a successful request: whenever some source Read of the
    goroutine's program fails and the request body is consumed to its end before the outcome is decided (the
-   auth writer asked for the body, or the transport reads everything before it answers), the call fails —
-   for every program, every scenario, with or without the repairs *)
+   auth writer asked for the body, Debug is on so that the request is dumped, or the transport reads everything
+   before it answers), the call fails — for every program, every scenario, with or without the repairs *)
 Theorem C12_upload_failure_is_error : forall fx prog sc,
   has_fail prog = true -> sc_param_err sc = false ->
-  (match sc_auth sc with AOk true | AFail true => True | _ => exists r, sc_transport sc = TRespond None r end) ->
+  (match sc_auth sc with
+   | AOk true | AFail true => True
+   | _ => sc_debug sc = true \/ exists r, sc_transport sc = TRespond None r
+   end) ->
   c_result (call fx prog sc) = RFail.
 Proof. exact upload_failure_is_error. Qed.
 Print Assumptions C12_upload_failure_is_error.
@@ -99,3 +133,26 @@ Theorem C12_deadline_bounds : forall parent now timeout d,
   (forall p, parent = Some p -> (d <= p)%Z) /\ (timeout <> 0%Z -> (d <= now + timeout)%Z).
 Proof. exact deadline_bounds. Qed.
 Print Assumptions C12_deadline_bounds.
+
+(* a negative timeout is not the absence of a timeout: it is a deadline that has already passed, whatever the caller's *)
+Theorem C12_deadline_negative_timeout : forall parent now timeout,
+  (timeout < 0)%Z -> exists d, effective_deadline parent now timeout = Some d /\ (d < now)%Z.
+Proof. exact deadline_negative_timeout. Qed.
+Print Assumptions C12_deadline_negative_timeout.
+
+(* taking every timeout <= 0 for no timeout agrees with the effective deadline on timeouts >= 0 only: with no
+   caller deadline and a negative timeout it means an unbounded wait where the deadline has already passed *)
+Theorem C12_deadline_refuted_if_nonpositive_means_none :
+  exists parent now timeout,
+    effective_deadline_nonpositive_as_none parent now timeout = None /\
+    exists d, effective_deadline parent now timeout = Some d /\ (d < now)%Z.
+Proof. exact deadline_nonpositive_as_none_differs. Qed.
+Print Assumptions C12_deadline_refuted_if_nonpositive_means_none.
+
+(* the moment by which a stalled call has to be back: never before it began, within each bound that exists *)
+Theorem C12_return_bound : forall parent now timeout m,
+  must_return_by parent now timeout = Some m ->
+  (now <= m)%Z /\ (forall p, parent = Some p -> (m <= Z.max now p)%Z) /\
+  (timeout <> 0%Z -> (m <= Z.max now (now + timeout))%Z).
+Proof. exact must_return_by_bounds. Qed.
+Print Assumptions C12_return_bound.
